@@ -33,8 +33,12 @@ type Case struct {
 	// offers column j of In value by value, lowers valid when it sees received, waits for received to fall
 	// and Gap[j] more steps before the next offer. Only for programs that read inputs with i2rw alone
 	// (an i2r would sample a line whose content depends on timing).
-	ClosedLoop bool  `json:",omitempty"`
-	Gap        []int `json:",omitempty"`
+	// MovMask: when the requirement tree of the optimisation is derived, instruction i of the program is shown
+	// to the front-end in its source spelling `mov rX, <imm>` instead of `rset rX <imm>` if bit i%64 is set
+	// (basm sources write mov; the opcode's HLAssemblerNormalize turns it into rset)
+	MovMask    uint64 `json:",omitempty"`
+	ClosedLoop bool   `json:",omitempty"`
+	Gap        []int  `json:",omitempty"`
 }
 
 // loopEnv is the closed-loop producer of one world.
@@ -233,6 +237,9 @@ func genCase(t *rapid.T) Case {
 		}
 		c.In = append(c.In, v)
 	}
+	if c.OnlyDestRegs && rapid.Bool().Draw(t, "movspelling") {
+		c.MovMask = rapid.Uint64().Draw(t, "movmask")
+	}
 	onlyWaitingReads := c.N > 0
 	for _, l := range c.Prog {
 		if strings.HasPrefix(l, "i2r ") || strings.HasPrefix(l, "addi ") { // sample the input lines without a handshake
@@ -288,13 +295,19 @@ func build(c Case, opt bool) (*built, error) {
 		defer rg.Close()
 		rg.Requirement(bmreqs.ReqRequest{Node: "/", T: bmreqs.ObjectSet, Name: "bm", Value: "cps", Op: bmreqs.OpAdd})
 		rg.Requirement(bmreqs.ReqRequest{Node: "/bm:cps", T: bmreqs.ObjectSet, Name: "id", Value: "0", Op: bmreqs.OpAdd})
-		for _, l := range c.Prog {
-			bl, err := bmline.Text2BasmLine(strings.Join(strings.Fields(l), "::"))
+		for i, l := range c.Prog {
+			f := strings.Fields(l)
+			shown := f
+			if f[0] == "rset" && c.MovMask>>(uint(i)%64)&1 == 1 {
+				shown = append([]string{"mov"}, f[1:]...)
+			}
+			bl, err := bmline.Text2BasmLine(strings.Join(shown, "::"))
 			if err != nil {
 				return nil, fmt.Errorf("Text2BasmLine(%q): %v", l, err)
 			}
-			f := strings.Fields(l)
 			op := gen.OpByName(f[0])
+			// (basm files the opcode under the node before it normalises the line: matcherresolver.go:192)
+			rg.Requirement(bmreqs.ReqRequest{Node: "/bm:cps/id:0", T: bmreqs.ObjectSet, Name: "opcodes", Value: f[0], Op: bmreqs.OpAdd})
 			if _, err := op.HLAssemblerNormalize(a, rg, "/bm:cps/id:0", bl); err != nil {
 				return nil, fmt.Errorf("HLAssemblerNormalize(%q): %v", l, err)
 			}
